@@ -456,6 +456,7 @@ int main(int argc, char** argv)
                         (find_mentry(cfuncs[i].name) || find_tentry(cfuncs[i].name)) ? "mirrored" : "special_or_unmirrored");
          std::printf("DONE\n");
       } else if (t[0] == "QUIT") break;
+      else std::printf("NOTE unknown command: %s\nDONE\n", t[0].c_str());
    }
    return 0;
 }
